@@ -46,11 +46,11 @@ theorem hcat_map (inputNames : List String) (jb : String → Mat) (rows : Nat) :
 
 /-- Jacobian of a `FunctionFromDiscipline` at the vector view of a named point: for every output row,
     the block of each input variable at that variable's position, zeros for the other variables. -/
-theorem gJac_named (sizes : Sizes) (names : List String) (hasInput : String → Bool)
+theorem gJac_named' (sizes : Sizes) (names : List String) (hasInput : String → Bool)
     (jac : Data → String → String → Mat) (rowsOf : String → Nat) (outs : List String)
     (pt : String → Vec)
     (hnd : names.Nodup) (hlen : ∀ n ∈ names, (pt n).length = sizeOf sizes n)
-    (hrow : ∀ o i r, i ∈ names → r < rowsOf o →
+    (hrow : ∀ o ∈ outs, ∀ i r, i ∈ names → r < rowsOf o →
       ((jac (namedData names hasInput pt) o i).getD r []).length = sizeOf sizes i) :
     gJac sizes names hasInput jac rowsOf outs (cat names pt)
       = some (outs.flatMap (fun o => (List.range (rowsOf o)).map (fun r =>
@@ -79,14 +79,14 @@ theorem gJac_named (sizes : Sizes) (names : List String) (hasInput : String → 
         = some (cat names (fun k => if hasInput k then (jac D row.1 k).getD row.2 []
                                     else List.replicate (sizeOf sizes k) 0)) := by
     intro row hmem
-    obtain ⟨o, _, hr⟩ := List.mem_flatMap.mp hmem
+    obtain ⟨o, ho, hr⟩ := List.mem_flatMap.mp hmem
     obtain ⟨r, hr1, hr2⟩ := List.mem_map.mp hr
     subst hr2
     have hlt : r < rowsOf o := List.mem_range.mp hr1
     have := unmask_cat sizes (names.filter hasInput) names hasInput
       (fun i => (jac D o i).getD r []) []
       (fun k hk => contains_filter_of_mem hk)
-      (fun k hk => hrow o k r hk hlt)
+      (fun k hk => hrow o ho k r hk hlt)
     simpa using this
   -- rewrite both sides as maps over the (output, row) pairs
   have lhs : outs.flatMap (fun o => (List.range (rowsOf o)).map (fun r =>
@@ -108,6 +108,18 @@ theorem gJac_named (sizes : Sizes) (names : List String) (hasInput : String → 
   | cons a l ih =>
     simp only [List.map_cons, mapOpt]
     rw [key a (by simp), ih (fun b hb => key b (by simp [hb]))]
+
+theorem gJac_named (sizes : Sizes) (names : List String) (hasInput : String → Bool)
+    (jac : Data → String → String → Mat) (rowsOf : String → Nat) (outs : List String)
+    (pt : String → Vec)
+    (hnd : names.Nodup) (hlen : ∀ n ∈ names, (pt n).length = sizeOf sizes n)
+    (hrow : ∀ o i r, i ∈ names → r < rowsOf o →
+      ((jac (namedData names hasInput pt) o i).getD r []).length = sizeOf sizes i) :
+    gJac sizes names hasInput jac rowsOf outs (cat names pt)
+      = some (outs.flatMap (fun o => (List.range (rowsOf o)).map (fun r =>
+          cat names (fun k => if hasInput k then (jac (namedData names hasInput pt) o k).getD r []
+                              else List.replicate (sizeOf sizes k) 0)))) :=
+  gJac_named' sizes names hasInput jac rowsOf outs pt hnd hlen (fun o _ => hrow o)
 
 /-! ### Design-space composition -/
 
